@@ -20,7 +20,7 @@ def gheader_sx(pf, extra_ratio=0):
     nl = pf.nlevels
     return [[getattr(pf, 'version', 'HyperCLaw-V1.1').encode()], [f.encode() for f in pf.fields], pf.ndims, tok(pf.time), nl - 1,
             [tok(x) for x in pf.geo_low], [tok(x) for x in pf.geo_high()],
-            [2] * (nl - 1 + extra_ratio),
+            pf.ratio_list() + [2] * extra_ratio,
             [[s - 1 for s in pf.grid_size(lv)] for lv in range(nl)],
             [pf.step] * nl,
             [[tok(x) for x in pf.dx(lv)] for lv in range(nl)],
@@ -156,7 +156,7 @@ def oracle_view(pf, path, limit, header_only, maxmins, extra_ratio):
         version=getattr(pf, 'version', 'HyperCLaw-V1.1'),
         fields=keys, field_idx=list(range(len(keys))), ndims=pf.ndims, time=fhex(pf.time), max_level=nl - 1,
         limit=limit, geo_low=[fhex(x) for x in pf.geo_low], geo_high=[fhex(x) for x in pf.geo_high()],
-        factors=[2] * (nl - 1 + extra_ratio), grid_sizes=[pf.grid_size(lv) for lv in range(nl)],
+        factors=pf.ratio_list() + [2] * extra_ratio, grid_sizes=[pf.grid_size(lv) for lv in range(nl)],
         steps=[pf.step] * nl, dx=[[fhex(x) for x in pf.dx(lv)] for lv in range(nl)],
         boxes=[[[[fhex(a), fhex(b)] for a, b in gen.box_bounds(pf, lv, lo, hi)] for lo, hi in pf.levels[lv].boxes]
                for lv in range(limit + 1)],
@@ -210,8 +210,14 @@ def run_case(seed):
     def count(k):
         dist[k] = dist.get(k, 0) + 1
 
-    pf = gen.gen_plotfile(rng, allow_repeat=True, max_blocks=2, payload=rng.choice(['ints', 'random']), awkward=0.3, odd0=0.25, odd_names=0.25, domain_first=0.2)
+    pf = gen.gen_plotfile(rng, allow_repeat=True, max_blocks=2, payload=rng.choice(['ints', 'random']), awkward=0.3, odd0=0.25, odd_names=0.25, domain_first=0.2, unicode_names=0.2)
     extra_ratio = rng.choice([0, 0, 1, 2])
+    rq = random.Random(seed * 6131 + 7)
+    if pf.nlevels >= 2 and rq.random() < 0.2:
+        # refinement ratios other than 2 / differing between levels
+        pf.ratios = (rq.choice([[4], [2, 4], [4, 2], [4, 4]]) + [2, 4])[:pf.nlevels - 1]
+        pf.meta['ratios'] = list(pf.ratios)
+    count(f"refinement ratios={pf.meta.get('ratios', 'all 2')}")
     rv = random.Random(seed * 4721 + 3)
     if rv.random() < 0.25:
         # the first Header line is the writing application's version name: any word
